@@ -753,9 +753,60 @@ func icTimeAddDate(fr *frame, args []value) value {
 	return timeVal{st.Add(t.ns, st.Mul(d, BV(nsPerDay, 64)))}
 }
 
+// Time window (verifTimeWindow): inside a declared window of instants the
+// weekday and the midnight truncation of a symbolic instant are ite chains
+// over the day boundaries of the window -- comparisons only, no 64-bit
+// division for the solver.  That the instant lies inside the window is not
+// assumed: it is a solver query on the current path (cached per term); if it
+// can lie outside, the path is not decided.
+func (m *Machine) inTimeWindow(t *Term) bool {
+	if m.timeWinHi == 0 || t.IsConst() {
+		return false
+	}
+	if ok, seen := m.winChecked[t]; seen {
+		return ok
+	}
+	st := m.st()
+	outside := st.Or(st.ULt(t, BV(m.timeWinLo, 64)), st.ULe(BV(m.timeWinHi, 64), t))
+	if m.spec > 0 {
+		panic(specAbort{"time window check"})
+	}
+	r, _ := m.query(outside)
+	if r != "unsat" {
+		if r == "unknown" {
+			m.res.Unknown++
+		}
+		panic(pathAbort{"an instant may lie outside the declared time window"})
+	}
+	if m.winChecked == nil {
+		m.winChecked = map[*Term]bool{}
+	}
+	m.winChecked[t] = true
+	return true
+}
+
+// dayChain builds ite(t < d1, f(d0), ite(t < d2, f(d1), ...)) over the UTC
+// day starts d0 < d1 < ... of the window.
+func (m *Machine) dayChain(t *Term, f func(dayStart uint64) *Term) *Term {
+	st := m.st()
+	first := m.timeWinLo - m.timeWinLo%nsPerDay
+	var starts []uint64
+	for d := first; d < m.timeWinHi; d += nsPerDay {
+		starts = append(starts, d)
+	}
+	r := f(starts[len(starts)-1])
+	for i := len(starts) - 2; i >= 0; i-- {
+		r = st.Ite(st.ULt(t, BV(starts[i+1], 64)), f(starts[i]), r)
+	}
+	return r
+}
+
 func icTimeWeekday(fr *frame, args []value) value {
 	t := args[0].(timeVal)
 	st := fr.m.st()
+	if fr.m.inTimeWindow(t.ns) {
+		return fr.m.dayChain(t.ns, func(d uint64) *Term { return BV((d/nsPerDay+4)%7, 64) })
+	}
 	days := st.bin(OpUDiv, t.ns, BV(nsPerDay, 64))
 	return st.bin(OpURem, st.Add(days, BV(4, 64)), BV(7, 64)) // 1970-01-01 was a Thursday
 }
@@ -826,6 +877,9 @@ func icTimeDate(fr *frame, args []value) value {
 		}
 	}
 	if ok1 && ok2 && ok3 && zeros && y.what == "year" && mo.what == "month" && d.what == "day" && y.of == mo.of && y.of == d.of {
+		if m.inTimeWindow(y.of) {
+			return timeVal{m.dayChain(y.of, func(d uint64) *Term { return BV(d, 64) })}
+		}
 		return timeVal{st.Sub(y.of, st.bin(OpURem, y.of, BV(nsPerDay, 64)))}
 	}
 	panic(pathAbort{"time.Date with symbolic components other than midnight truncation"})
